@@ -266,6 +266,13 @@ MEDDLY::saturation_set_mtrel<EOP, ATYPE>
         fire_ct->setFixed(resF, arg2F);
         sat_ct->setFixed(resF, arg2F);
     }
+    //
+    // The result of firing is saturated using the events at or below
+    // the current level, so those are part of the firing key as well;
+    // otherwise entries from a previous call with another relation,
+    // which shares the fired sub-relation, would be reused.
+    //
+    fire_ct->appendFixed(arg2F);
 
     if (EOP::hasEdgeValues()) {
         fire_ct->setResult(EOP::edgeValueTypeLetter(), resF);
@@ -658,9 +665,11 @@ void MEDDLY::saturation_set_mtrel<EOP, ATYPE>::recFire(int L,
         key[0].setI(L);
         key[1].setN(A);
         key[2].setN(B);
+        key[3].setN(top_at_or_below[L].getNode());
     } else {
         key[0].setN(A);
         key[1].setN(B);
+        key[2].setN(top_at_or_below[L].getNode());
     }
 
     if (fire_ct->findCT(key, res)) {
